@@ -187,6 +187,11 @@ pre_thread(struct emu *emu)
 
 	switch (ev->v) {
 		case 'C': /* create */
+			if (ev->payload_size < 12) {
+				err("missing payload in thread %d create event", th->tid);
+				return -1;
+			}
+
 			dbg("thread %d creates a new thread at cpu=%d with args=%x %x",
 					th->tid,
 					ev->payload->u32[0],
